@@ -136,7 +136,7 @@ event, and only for events that are triggered and not yet processed. -/
 theorem scheduled_at_most_once (body : σ → Resume → Burst ℚ σ) (fuel : Nat) (s0 s : KState ℚ σ)
     (h0 : Once.Inv0 false s0) (hsafe : Once.SafeRun body fuel s0) (hr : KReach body fuel s0 s) :
     Once.AgendaOnce s :=
-  (Once.Inv0.reach body fuel h0 (fun h => by cases h) hsafe hr).agendaOnce
+  (Once.Inv0.reach body fuel h0 (fun h => by cases h) hsafe (fun h => by cases h) hr).agendaOnce
 
 /-- **`step` never dies of a doubly scheduled event**: the event it pops is unprocessed, so the step is exactly the
 callback loop over the callbacks registered at that moment (never the `TypeError: 'NoneType' object is not iterable`
@@ -146,7 +146,7 @@ theorem never_pops_processed (body : σ → Resume → Burst ℚ σ) (fuel : Nat
     (q : QEntry ℚ) (rest : List (QEntry ℚ)) (hq : popMin s.agenda = some (q, rest)) :
     ∃ L, (s.ev q.ev).cbs = some L ∧
       step body fuel s = closeEvent (L.foldl (runCb body fuel q.ev) { s := openEvent s q rest }) q.ev := by
-  have hi := Once.Inv0.reach body fuel h0 (fun h => by cases h) hsafe hr
+  have hi := Once.Inv0.reach body fuel h0 (fun h => by cases h) hsafe (fun h => by cases h) hr
   have hne := hi.pop_unprocessed q rest hq
   cases hc : (s.ev q.ev).cbs with
   | none => exact absurd hc hne
@@ -196,7 +196,7 @@ theorem processed_at_most_once (body : σ → Resume → Burst ℚ σ) (fuel : N
     (hs : (step body fuel s).state? = some s') (hr2 : KReach body fuel s' s2) :
     (s2.ev q.ev).cbs = none ∧
     ∀ q2 rest2, popMin s2.agenda = some (q2, rest2) → q2.ev ≠ q.ev := by
-  have hi := Once.Inv0.reach body fuel h0 (fun h => by cases h) hsafe hr
+  have hi := Once.Inv0.reach body fuel h0 (fun h => by cases h) hsafe (fun h => by cases h) hr
   have hlt : q.ev < s.events.size := Once.lt_of_cbs s _ (hi.pop_unprocessed q rest hq)
   obtain ⟨hp', hlt'⟩ := Once.step_processes body fuel s s' q rest hq hlt hs
   have hp2 : (s2.ev q.ev).cbs = none := (Once.reach_evMono body fuel s' s2 hr2).processed q.ev hlt' hp'
@@ -214,7 +214,7 @@ theorem registration_invariant (body : σ → Resume → Burst ℚ σ) (fuel : N
     (h0 : Once.Inv0 false s0) (hsafe : Once.SafeRun body fuel s0) (hr : KReach body fuel s0 s)
     (e : EvId) (L : List Cb) (p : EvId) (hL : (s.ev e).cbs = some L) (hm : Cb.resume p ∈ L) :
     (s.ev p).out = none ∧ (∃ pr, s.proc? p = some pr ∧ pr.target = some e) ∧ L.count (.resume p) = 1 :=
-  (Once.Inv0.reach body fuel h0 (fun h => by cases h) hsafe hr).regOnce e L p hL hm
+  (Once.Inv0.reach body fuel h0 (fun h => by cases h) hsafe (fun h => by cases h) hr).regOnce e L p hL hm
 
 /-- **No waiting process is lost** (`0 < fuel`): between two steps every unfinished process has a target that exists,
 and — unless that target has been processed already, which between steps means that the `_resume` loop ran out of fuel
@@ -226,7 +226,7 @@ theorem waiting_process_registered_once (body : σ → Resume → Burst ℚ σ) 
     ∃ t, pr.target = some t ∧ t < s.events.size ∧
       (∀ L, (s.ev t).cbs = some L → L.count (.resume p) = 1) ∧
       (∀ e L, e ≠ t → (s.ev e).cbs = some L → Cb.resume p ∉ L) := by
-  have hi := Once.Inv0.reach body fuel h0 (fun _ => hfuel) hsafe hr
+  have hi := Once.Inv0.reach body fuel h0 (fun _ => hfuel) hsafe (fun h => by cases h) hr
   obtain ⟨t, h1, h2, h3⟩ := hi.noneLost p pr hp hlive
   refine ⟨t, h1, h2, ?_, ?_⟩
   · intro L hL
@@ -239,6 +239,25 @@ theorem waiting_process_registered_once (body : σ → Resume → Burst ℚ σ) 
     rw [hp] at h5; cases h5
     rw [h1] at h6; cases h6
     exact hne rfl
+
+/-- **Every waiting process is registered exactly once** — without the caveat, for runs in which no `_resume` loop runs
+out of fuel (`Once.NoHangRun`: no process yields already-processed events for ever, which would be a hang of the real
+kernel): between two steps every unfinished process is in the callback list of its (unprocessed) target exactly once,
+and in no other list. -/
+theorem waiting_process_registered_exactly_once (body : σ → Resume → Burst ℚ σ) (fuel : Nat) (s0 s : KState ℚ σ)
+    (h0 : Once.Inv0 true s0 true) (hfuel : 0 < fuel) (hsafe : Once.SafeRun body fuel s0)
+    (hnh : Once.NoHangRun body fuel s0) (hr : KReach body fuel s0 s)
+    (p : EvId) (pr : ProcRec σ) (hp : s.proc? p = some pr) (hlive : (s.ev p).out = none) :
+    ∃ t L, pr.target = some t ∧ (s.ev t).cbs = some L ∧ L.count (.resume p) = 1 ∧
+      (∀ e L', e ≠ t → (s.ev e).cbs = some L' → Cb.resume p ∉ L') := by
+  have hi := Once.Inv0.reach body fuel h0 (fun _ => hfuel) hsafe (fun _ => hnh) hr
+  obtain ⟨t, L, h1, h2, h3⟩ := hi.allRegistered p pr hp hlive
+  refine ⟨t, L, h1, h2, (hi.regOnce t L p h2 h3).2.2, ?_⟩
+  intro e L' hne hL' hm
+  obtain ⟨_, ⟨pr', h5, h6⟩, _⟩ := hi.regOnce e L' p hL' hm
+  rw [hp] at h5; cases h5
+  rw [h1] at h6; cases h6
+  exact hne rfl
 
 /-- **A waiter is resumed exactly once per wait**: the step that processes the target `t` of a waiting process `p`
 runs a callback list that contains `_resume p` exactly once (and the event is never processed again). -/
@@ -268,8 +287,9 @@ example (fuel : Nat) (s : KState ℚ Nat)
 
 /-- a run in which one process waits for an event that another process succeeds one time unit later satisfies the
 hypotheses (decided by evaluating its 6 steps), although the program text alone is not `SafeProg` -/
-example : Once.Inv0 true Once.wait0 ∧ Once.SafeRun Once.waitBody 5 Once.wait0 ∧ ¬ Once.SafeProg Once.waitBody :=
-  ⟨Once.wait0_inv, Once.wait_safe, Once.wait_not_safeProg⟩
+example : Once.Inv0 true Once.wait0 true ∧ Once.SafeRun Once.waitBody 5 Once.wait0 ∧
+    Once.NoHangRun Once.waitBody 5 Once.wait0 ∧ ¬ Once.SafeProg Once.waitBody :=
+  ⟨Once.wait0_inv, Once.wait_safe, Once.wait_noHang, Once.wait_not_safeProg⟩
 
 /-- a process that calls `succeed()` on its own Process object: the start state satisfies the invariant, … -/
 example : Once.Inv0 false Once.bad0 := Once.bad0_inv
